@@ -121,6 +121,21 @@ func c11Victims() []c11Victim {
 		{Name: "PutBucketVersioning Suspended", Key: "k", NeedsVersioning: true, Prep: seed("k"), Run: func(st *pxStore, p *posix.Posix, c map[string]string) error {
 			return p.PutBucketVersioning(st.ctx(), c11Bucket, types.BucketVersioningStatusSuspended)
 		}},
+		{Name: "PutObject with versioning Suspended over a version, beside a preserved null version", Key: "k", NeedsVersioning: true, Prep: func(st *pxStore) map[string]string {
+			// history: a null version written while Suspended, preserved by a write while Enabled; Suspended again
+			for _, step := range []func() error{
+				func() error { return st.A.PutBucketVersioning(st.ctx(), c11Bucket, types.BucketVersioningStatusSuspended) },
+				func() error { return put(st, st.A, "k", v0, nil) },
+				func() error { return st.A.PutBucketVersioning(st.ctx(), c11Bucket, types.BucketVersioningStatusEnabled) },
+				func() error { return put(st, st.A, "k", v1, nil) },
+				func() error { return st.A.PutBucketVersioning(st.ctx(), c11Bucket, types.BucketVersioningStatusSuspended) },
+			} {
+				if err := step(); err != nil {
+					ck.Fatal("suspended history: %v", err)
+				}
+			}
+			return nil
+		}, Run: func(st *pxStore, p *posix.Posix, c map[string]string) error { return put(st, p, "k", mkval(3), nil) }},
 		{Name: "DeleteObject by version id of the current version", Key: "k", NeedsVersioning: true, Prep: func(st *pxStore) map[string]string {
 			seed("k")(st)
 			if err := put(st, st.A, "k", v1, nil); err != nil {
@@ -286,7 +301,7 @@ var rePath = regexp.MustCompile(`"?/[^ :"]+"?`)
 func C11(r *ck.Run) {
 	requireInstrumented()
 	r.Level = "fault_enumeration"
-	r.Rule("for every victim operation (PutObject new / overwrite / nested / with tags / with tags+legal hold+retention, CopyObject, UploadPart re-upload, CompleteMultipartUpload new / overwrite, DeleteObject plain / nested with parent pruning / by version id, PutBucketVersioning) × storage configuration {O_TMPFILE, named temp} × {xattr, sidecar} × {unversioned, versioning enabled}: the process is killed before EVERY file-system step of the operation (the logical thread is frozen before step i, its file descriptors are closed, deferred Go code does not reach the file system), a new backend instance is started on the same storage and everything the API shows about the key is compared with the complete previous and the complete new state (an interrupted multipart completion that left the previous state must be repeatable); distinct = (configuration, victim, crash point)")
+	r.Rule("for every victim operation (PutObject new / overwrite / nested / with tags / with tags+legal hold+retention / on a Suspended bucket over a version beside a preserved null version, CopyObject, UploadPart re-upload, CompleteMultipartUpload new / overwrite, DeleteObject plain / nested with parent pruning / by version id, PutBucketVersioning) × storage configuration {O_TMPFILE, named temp} × {xattr, sidecar} × {unversioned, versioning enabled}: the process is killed before EVERY file-system step of the operation (the logical thread is frozen before step i, its file descriptors are closed, deferred Go code does not reach the file system), a new backend instance is started on the same storage and everything the API shows about the key is compared with the complete previous and the complete new state (an interrupted multipart completion that left the previous state must be repeatable); distinct = (configuration, victim, crash point)")
 	r.Assume("a killed process loses its file descriptors and runs no deferred code; page-cache contents survive (process crash, not power loss); single syscalls are atomic")
 	cfgs := []pxCfg{{}, {NoTmp: true}, {Versioning: true}, {NoTmp: true, Versioning: true}}
 	if r.Thorough() {
@@ -393,7 +408,13 @@ func c11RunVictim(r *ck.Run, st *pxStore, v c11Victim) {
 		default:
 			r.Outcome("mixed-state")
 			det["window"] = after + " / " + before
-			r.Violation(ck.JoinSig("crash", v.Name, metaClass(st.Cfg), "neither-previous-nor-new-state:"+c11DiffClass(pre2, post, got)), det)
+			class := c11DiffClass(pre2, post, got)
+			if strings.Contains(v.Name, "versioning Suspended") {
+				// for the victims on a Suspended bucket the listing difference is told apart: an entry too many loses
+				// nothing, an entry of both reference states that is gone is a lost version
+				class += c11VersionsDetail(pre2, post, got)
+			}
+			r.Violation(ck.JoinSig("crash", v.Name, metaClass(st.Cfg), "neither-previous-nor-new-state:"+class), det)
 			continue
 		}
 		// an interrupted completion can be repeated by the client with what it was given (upload id, part ETags)
@@ -487,6 +508,68 @@ func c11DiffClass(pre, post, got string) string {
 	}
 	sort.Strings(parts)
 	return strings.Join(parts, ",")
+}
+
+// c11VersionsDetail compares the entries of the VERSIONS lines: "+version-lost" when an entry of the reference
+// state the crash state's GET shows is missing after the crash, "+extra-entry" when the crash state has an entry more often than either reference state, "+entries-of-both-states" otherwise.
+func c11VersionsDetail(pre, post, got string) string {
+	entries := func(state string) map[string]int {
+		m := map[string]int{}
+		for _, l := range strings.Split(state, "\n") {
+			if strings.HasPrefix(l, "VERSIONS:[") {
+				l = strings.ReplaceAll(l, "DUPLICATE-ID", " ")
+				for _, e := range strings.Split(strings.TrimSuffix(strings.TrimPrefix(l, "VERSIONS:["), "]"), "  ") {
+					e = strings.TrimSpace(strings.ReplaceAll(strings.ReplaceAll(e, "latest=true", ""), "latest=false", ""))
+					if e != "" {
+						m[e]++
+					}
+				}
+			}
+		}
+		return m
+	}
+	p, q, g := entries(pre), entries(post), entries(got)
+	lost, extra := false, false
+	line := func(state, tag string) string {
+		for _, l := range strings.Split(state, "\n") {
+			if strings.HasPrefix(l, tag) {
+				return l
+			}
+		}
+		return ""
+	}
+	// the versions the crash state must still have: those of the state its GET shows (the operation took effect
+	// or it did not); when GET shows neither, those both states have
+	must := map[string]int{}
+	switch gl := line(got, "GET:"); {
+	case gl == line(pre, "GET:"):
+		must = p
+	case gl == line(post, "GET:"):
+		must = q
+	default:
+		for e, n := range p {
+			if q[e] > 0 {
+				must[e] = min(n, q[e])
+			}
+		}
+	}
+	for e, n := range must {
+		if g[e] < n {
+			lost = true
+		}
+	}
+	for e, n := range g {
+		if n > p[e] && n > q[e] {
+			extra = true
+		}
+	}
+	switch {
+	case lost:
+		return "+version-lost"
+	case extra:
+		return "+extra-entry"
+	}
+	return "+entries-of-both-states"
 }
 
 var _ = auth.Account{}
